@@ -2,6 +2,7 @@ package props
 
 import (
 	"fmt"
+	"github.com/tuneinsight/lattigo/v6/utils/bignum"
 	"math/big"
 	"reflect"
 
@@ -140,6 +141,8 @@ func hashOperand(v any) uint64 {
 		return core.HashString("bi" + x.Text(16) + fmt.Sprint(x.Sign()))
 	case *big.Float:
 		return core.HashString("bf" + x.Text('p', 0) + fmt.Sprint(x.Prec()))
+	case *bignum.Complex:
+		return core.HashString("bc" + x[0].Text('p', 0) + fmt.Sprint(x[0].Prec()) + "|" + x[1].Text('p', 0) + fmt.Sprint(x[1].Prec()))
 	default:
 		return core.HashString(fmt.Sprintf("%T:%v", v, v))
 	}
@@ -163,6 +166,8 @@ func copyOperand(v any) any {
 		return new(big.Int).Set(x)
 	case *big.Float:
 		return new(big.Float).Copy(x)
+	case *bignum.Complex:
+		return &bignum.Complex{new(big.Float).Copy(x[0]), new(big.Float).Copy(x[1])}
 	default:
 		return v
 	}
